@@ -387,3 +387,20 @@ def real_module(modname):
     ensure_repo_on_path()
     import importlib
     return importlib.import_module(modname)
+
+
+def fresh_python(code, payload, timeout=600):
+    """Run ``code`` in a new interpreter with the unmodified repository on sys.path (for replays of call
+    *sequences*: module-level state of the real code must start empty, whatever ran in this process).
+    ``payload`` (JSON-able) is available to the code as PAYLOAD; the code prints one JSON document."""
+    import json
+    import subprocess
+    import sys
+    prog = ('import sys, json\nsys.path.insert(0, %r)\nPAYLOAD = json.loads(sys.stdin.read())\n' % REPO) + code
+    p = subprocess.run([sys.executable, '-c', prog], input=json.dumps(payload), capture_output=True, text=True, timeout=timeout)
+    if p.returncode != 0:
+        return {'fresh_interpreter_error': (p.stderr or p.stdout)[-800:]}
+    try:
+        return json.loads(p.stdout.strip().splitlines()[-1])
+    except Exception:
+        return {'fresh_interpreter_error': 'no JSON in output: %r' % p.stdout[-400:]}
